@@ -177,6 +177,8 @@ def run_tlc(ctx, module, constants, invariants, tag, emit_to=None, workers=4, ti
     cfg_path = os.path.join(rdir, "%s.cfg" % module)
     with open(cfg_path, "w") as f:
         f.write("\n".join(cfg) + "\n")
+    if not getattr(ctx, "quick", True):
+        timeout = timeout * 4       # thorough tier: same margin as for the harness
     cmd = ["tlc", "-workers", str(workers), "-metadir", os.path.join(rdir, "meta"), "-cleanup",
            "-noGenerateSpecTE", "-config", cfg_path]
     if simulate:
@@ -349,6 +351,10 @@ def run_harness(ctx, binpath, args, tag, env_extra=None, timeout=1800, allow_sig
     if env_extra:
         env.update(env_extra)
     cmd = [binpath] + [str(a) for a in args] + ["--out", outp, "--seed", str(ctx.seed)]
+    if not getattr(ctx, "quick", True):
+        # thorough tier: the vector files are 10-50x larger and the machine may be shared; a timeout is a tool error
+        # (exit 2), so leave a wide margin (a thorough replay once needed more than 30 min under load)
+        timeout = max(timeout, 4 * 3600)
     p = subprocess.run(["timeout", str(timeout)] + cmd, env=env, stdout=subprocess.PIPE, stderr=subprocess.PIPE, text=True)
     if p.returncode != 0:
         if allow_signal:
